@@ -451,7 +451,13 @@ func (f *Frame) modifiedCells(li *loopInfo) (map[string]bool, bool) {
 					mod[f.localKey(x)] = true
 				} else {
 					f.heapAllocCells(x, mod)
+					mod["ghost:alive"] = true
 				}
+			case *ssa.MakeMap:
+				mod["ghost:alive"] = true
+				mod[f.mapKey(x.Type())] = true
+			case *ssa.MakeChan, *ssa.MakeClosure:
+				mod["ghost:alive"] = true
 			case *ssa.MapUpdate:
 				mod[f.mapKey(x.Map.Type())] = true
 			case *ssa.Call:
@@ -563,6 +569,13 @@ func (f *Frame) callMods(c *ssa.CallCommon, mod map[string]bool) bool {
 		return true
 	}
 	key, con, kind := vc.P.resolveCall(f, c)
+	mod["ghost:alive"] = true
+	if kind == "model" && strings.HasPrefix(key, "(*protocol.") {
+		mod["ghost:iterpos"] = true
+	}
+	if kind == "model" && strings.HasPrefix(key, "iface:context.Context.Err") {
+		mod["ghost:lastCtxErrNil"] = true
+	}
 	switch kind {
 	case "contract":
 		if con.ModAll {
@@ -638,6 +651,7 @@ func (f *Frame) loopHeader(li *loopInfo) {
 		}
 	}
 	// 2. havoc
+	preLoop := f.cur.clone()
 	mod, ok := f.modifiedCells(li)
 	if !ok {
 		// unknown effects: havoc every heap cell, keep locals not written in the loop
@@ -668,6 +682,40 @@ func (f *Frame) loopHeader(li *loopInfo) {
 		}
 	}
 	li.modSet = mod
+	// alive only grows: what was alive before the loop is alive in every iteration
+	if mod["ghost:alive"] {
+		if cur, ok := f.cur.cells["ghost:alive"]; ok {
+			pre := f.getCell(preLoop, "ghost:alive", aliveSort)
+			vc.assume(fmt.Sprintf("(forall ((x Int)) (! (=> (select %s x) (select %s x)) :pattern ((select %s x))))", pre, cur, pre))
+		}
+	}
+	// implicit frame invariant: heap cells not in the function's `modifies` stay unchanged on objects alive at entry
+	li.frameKeys = nil
+	if f.depth == 0 {
+		declared := map[string]bool{}
+		if f.con != nil {
+			for _, m := range f.con.Modifies {
+				declared[vc.P.modKey(m)] = true
+			}
+		}
+		aliveEntry := f.getCell(f.entry, "ghost:alive", aliveSort)
+		for _, k := range ks {
+			srt, known := vc.cellSort[k]
+			if !known || declared[k] || !(strings.HasPrefix(k, "H:") || strings.HasPrefix(k, "D:") || strings.HasPrefix(k, "M:") || k == "ghost:iterpos") || !strings.HasPrefix(srt, "(Array Int ") {
+				continue
+			}
+			entryV := f.getCell(f.entry, k, srt)
+			// holds on loop entry iff it holds for the pre-loop value (checked as an obligation only when they differ)
+			pre := f.getCell(preLoop, k, srt)
+			if pre != entryV {
+				goal := fmt.Sprintf("(forall ((fr Int)) (=> (select %s fr) (= (select %s fr) (select %s fr))))", aliveEntry, pre, entryV)
+				vc.addObl(f, "frame", fmt.Sprintf("loop[%s].frame[%s].entry", loopName(li), k), goal, "implicit frame invariant", li.header.Instrs[0].Pos())
+			}
+			cur := f.getCell(f.cur, k, srt)
+			vc.assume(implies(f.curReach, fmt.Sprintf("(forall ((fr Int)) (! (=> (select %s fr) (= (select %s fr) (select %s fr))) :pattern ((select %s fr))))", aliveEntry, cur, entryV, cur)))
+			li.frameKeys = append(li.frameKeys, k)
+		}
+	}
 	// 3. assume invariants (+ implicit range-index bounds)
 	if li.kind == "range" && li.idxCell != "" {
 		idx := f.getCell(f.cur, li.idxCell, SInt)
@@ -708,7 +756,24 @@ func (f *Frame) loopLatch(li *loopInfo, latch *ssa.BasicBlock) {
 		t := f.evalClause(inv, f.cur, f.entry, nil, li)
 		f.vc.addObl(f, "inv-preserved", fmt.Sprintf("loop[%s].inv[%s].preserved@b%d", li.spec.Key, clauseName(inv, i), latch.Index), t, inv.Src, li.header.Instrs[0].Pos())
 	}
+	if len(li.frameKeys) > 0 {
+		aliveEntry := f.getCell(f.entry, "ghost:alive", aliveSort)
+		for _, k := range li.frameKeys {
+			srt := f.vc.cellSort[k]
+			entryV := f.getCell(f.entry, k, srt)
+			cur := f.getCell(f.cur, k, srt)
+			goal := fmt.Sprintf("(forall ((fr Int)) (=> (select %s fr) (= (select %s fr) (select %s fr))))", aliveEntry, cur, entryV)
+			f.vc.addObl(f, "frame", fmt.Sprintf("loop[%s].frame[%s].preserved@b%d", loopName(li), k, latch.Index), goal, "implicit frame invariant", li.header.Instrs[0].Pos())
+		}
+	}
 	f.curReach = save
+}
+
+func loopName(li *loopInfo) string {
+	if li.spec != nil {
+		return li.spec.Key
+	}
+	return fmt.Sprintf("#%d", li.ord)
 }
 
 func (vc *VC) nextGen() int {
@@ -729,6 +794,14 @@ func (f *Frame) exec(ins ssa.Instruction) {
 	case *ssa.UnOp:
 		f.execUnOp(x)
 	case *ssa.BinOp:
+		if x.Op == token.ADD && f.isRangeIndexLoad(x.X) {
+			// hidden range index + 1: cannot overflow (index < len <= MaxInt64 is assumed at the loop header)
+			a, b := f.sval(x.X), f.sval(x.Y)
+			if b.t == "1" && a.s == SInt {
+				f.vals[x] = Val{sx("+", a.t, "1"), SInt, x.Type()}
+				return
+			}
+		}
 		f.vals[x] = f.binop(x.Op, f.sval(x.X), f.sval(x.Y), x.Type(), x.Pos())
 	case *ssa.Phi:
 		f.execPhi(x)
@@ -832,6 +905,15 @@ func (f *Frame) exec(ins ssa.Instruction) {
 			f.vals[v] = vc.freshVal("unsupported", v.Type())
 		}
 	}
+}
+
+func (f *Frame) isRangeIndexLoad(v ssa.Value) bool {
+	if u, ok := v.(*ssa.UnOp); ok && u.Op == token.MUL {
+		if a, ok := u.X.(*ssa.Alloc); ok && a.Comment == "rangeindex" {
+			return true
+		}
+	}
+	return false
 }
 
 func (f *Frame) effect(kind string, pos token.Pos) {
@@ -1162,7 +1244,7 @@ func (f *Frame) execMakeSlice(x *ssa.MakeSlice) {
 		return
 	}
 	et := vc.S.elemOf[s]
-	f.vals[x] = Val{fmt.Sprintf("(mk_%s false %s ((as const (Array Int %s)) %s))", s, n.t, vc.sortOf(et), vc.S.zero(et)), s, x.Type()}
+	f.vals[x] = Val{fmt.Sprintf("(mk_%s false %s %s)", s, n.t, vc.S.constArr("Int", vc.sortOf(et), vc.S.zero(et))), s, x.Type()}
 }
 
 func (f *Frame) execSlice(x *ssa.Slice) {
@@ -1236,7 +1318,7 @@ func (f *Frame) emptyMap(t types.Type) string {
 	m := t.Underlying().(*types.Map)
 	ms := f.mapValSort(t)
 	ks, vs := f.vc.sortOf(m.Key()), f.vc.sortOf(m.Elem())
-	return fmt.Sprintf("(mk_%s ((as const (Array %s Bool)) false) ((as const (Array %s %s)) %s))", ms, ks, ks, vs, f.vc.S.zero(m.Elem()))
+	return fmt.Sprintf("(mk_%s ((as const (Array %s Bool)) false) %s)", ms, ks, f.vc.S.constArr(ks, vs, f.vc.S.zero(m.Elem())))
 }
 
 func (f *Frame) mapContent(st *State, ref string, t types.Type) (string, Sort) {
